@@ -30,7 +30,7 @@ PARTIAL = ["round trip: conditional on the third-party converter (assumption sam
            "explained by known finding K4)"]
 
 PLAIN = list("abcxyzXYZ0189 .,;:!?()-+/'*@=<>|[]") + list("éüñçøßÅêŁ") + ["&", "%", "#", "_", "{", "}", "~", "\\", " ", " "]
-MATH = ["$x^2$", "$a_b$", "$\\alpha + 1$", "$f(x) < 3$"]
+MATH = ["$x^2$", "$a_b$", "$\\alpha + 1$", "$f(x) < 3$", "$p = 5\\$ + t$", "$a\\$b$"]   # the last two: an escaped dollar inside the span
 URLS = ["https://a.b/c", "www.x.org/y?z=1", "http://u.v/w#f_g", "https://example.com/p_q"]
 URL_BAD = ["https://a.b/c&d", "http://x.y/a%20b", "www.a.b/~user", "https://a.b/{c}", "http://a.b/c\\d", "https://a.b/c$d"]
 _URL_RE = re.compile(r"(https?://\S*\.\S*)|(www.\S*\.\S*)")
@@ -54,8 +54,13 @@ def gen_text(rng, allow_bad_url=False):
     if not has_math and rng.random() < 0.15:
         segs.insert(rng.randrange(len(segs) + 1), "$")
     t = "".join(segs)
-    for lig in ("--", "``", "''", "!`", "?`"):
-        t = t.replace(lig, lig[0] + " " + lig[1])
+    changed = True
+    while changed:                      # until no ligature sequence is left (three quotes need a second pass)
+        changed = False
+        for lig in ("--", "``", "''", "!`", "?`"):
+            if lig in t:
+                t = t.replace(lig, lig[0] + " " + lig[1])
+                changed = True
     return t
 
 
